@@ -1,4 +1,5 @@
 import GixModel.Lemmas.C36
+import GixModel.Lemmas.C36Multi2
 /-
 C36 — Wildcard matching agrees with git's wildmatch.  PROPERTY THEOREMS ONLY.
 
@@ -69,6 +70,44 @@ theorem single_star_eq (m : Mode) (p t : Bytes) (hok : PatOk m p)
 -- non-vacuity: `a*[!b-d]/?` in path mode, and a match that needs the scan and a recursive call
 example : PatOk ⟨true, false⟩ [97, 42, 91, 33, 98, 45, 100, 93, 47, 63] := ⟨by decide, by intro h; cases h⟩
 example : C36.wildmatch ⟨true, false⟩ [97, 42, 91, 33, 98, 45, 100, 93, 47, 63] [97, 120, 99, 120, 47, 122] = true := by
+  decide +kernel
+
+/-- T2+. ANY number of single stars — every pattern without two adjacent `*` bytes and with fewer
+than 64 stars (the recursion bound of the Rust code: each recursion level consumes a star, so the
+limit is never reached), anything else around the stars, all four modes: `wildmatch` gives git's
+answer. Proof: joint induction over the pattern (fuel) with the recursive calls on every text
+suffix; where gitoxide's recursive call merely fails and git's aborts everything, git's loops give
+up and gitoxide's go on, but never find a match because ABORT_ALL is sound for these patterns
+(`dowild_abort_sound`: if `dowild(p, t)` aborts, `p` matches no suffix of `t`). -/
+theorem multi_star_eq (m : Mode) (p t : Bytes) (hok : PatOk m p) (hds : noDS p = true)
+    (hcnt : (p.filter (· == 42)).length < 64) (ht : NoNul t) :
+    C36.wildmatch m p t = Spec.C36.wildmatch (flagsOf m) p t := by
+  unfold C36.wildmatch Spec.C36.wildmatch matchRecursive RECURSION_LIMIT
+  have h := go_rel_multi m (p.length + 1) 63 p t hok hds ht p t 0 0 none (by simp) (by simp) (by simp)
+    (by unfold count42; omega)
+  simp only [Iter.ofSlice]
+  rcases h with h | ⟨h1, h2⟩
+  · rw [h]; cases dowild (flagsOf m) (p.length + 1) none p t <;> rfl
+  · rw [h1]
+    cases hg : go m (p.length + 1) 63 p t ⟨0, p⟩ ⟨0, t⟩ <;> first | rfl | exact absurd hg h2
+
+/-- What git's ABORT_ALL means (patterns without `**`): no suffix of the text matches either. This is
+the soundness of the abort code that the proof of `multi_star_eq` rests on. It is FALSE for `**/`
+(`**/a/a/a` aborts on `xa/a/a` although it matches the suffix `a/a/a`), which is why the general
+statement needs another argument. -/
+theorem abort_all_sound (m : Mode) (n : Nat) (prev : Option UInt8) (p t : Bytes) (hds : noDS p = true)
+    (hp : NoNul p) (ht : NoNul t) (h : dowild (flagsOf m) n prev p t = .abortAll) (k : Nat) :
+    dowild (flagsOf m) n prev p (t.drop k) ≠ .matched :=
+  dowild_abort_sound m n prev p t hds hp ht h k
+
+-- non-vacuity: three stars, a bracket and a `*/` jump in path mode
+example : PatOk ⟨true, false⟩ [42, 97, 42, 47, 91, 98, 99, 93, 42, 46, 111] ∧
+    noDS [42, 97, 42, 47, 91, 98, 99, 93, 42, 46, 111] = true := ⟨⟨by decide, by intro h; cases h⟩, by decide⟩
+example : C36.wildmatch ⟨true, false⟩ [42, 97, 42, 47, 91, 98, 99, 93, 42, 46, 111] [120, 97, 121, 47, 99, 122, 46, 111] = true := by
+  decide +kernel
+-- and the witness that ABORT_ALL is not suffix-sound with `**/`
+example : dowild ⟨false, true⟩ 20 none [42, 42, 47, 97, 47, 97, 47, 97] [120, 97, 47, 97, 47, 97] = .abortAll
+    ∧ dowild ⟨false, true⟩ 20 none [42, 42, 47, 97, 47, 97, 47, 97] [97, 47, 97, 47, 97] = .matched := by
   decide +kernel
 
 /-- `C36_full` is FALSE of today's code: with IGNORE_CASE, `[A]` matches `a` in gitoxide, not in git
